@@ -40,12 +40,25 @@ def sublattices(tier, seed):
     tuples = [t for k in range(1, maxk + 1) for t in itertools.product(range(1, maxn + 1), repeat=k)]
     if tier == 'thorough':
         tuples = [t for t in tuples if len(t) <= 3 or max(t) <= 3]
-    concat = [{'kind': 'concat', 'sizes': list(t), 'scheme': s, 'how': h} for t in tuples for s in SCHEMES for h in ('list', 'pattern')]
+    concat = []
+    for t in tuples:
+        for sc in SCHEMES:
+            # explicit list: file names in the order given, and names whose lexicographic order is the
+            # reverse of the order given; numbered pattern: range starting at 0 and at 2 (with decoy
+            # files below the start that must not be consumed)
+            concat.append({'kind': 'concat', 'sizes': list(t), 'scheme': sc, 'how': 'list', 'names': 'asc'})
+            concat.append({'kind': 'concat', 'sizes': list(t), 'scheme': sc, 'how': 'list', 'names': 'reverse'})
+            concat.append({'kind': 'concat', 'sizes': list(t), 'scheme': sc, 'how': 'pattern', 'start': 0})
+            concat.append({'kind': 'concat', 'sizes': list(t), 'scheme': sc, 'how': 'pattern', 'start': 2})
+    # unpadded numbered patterns with more than ten parts: numeric order differs from name order
+    unpadded = [{'kind': 'concat', 'sizes': [1] * k, 'scheme': sc, 'how': 'pattern-unpadded', 'start': st}
+                for k in ((11,) if tier == 'quick' else (11, 12, 21)) for sc in SCHEMES for st in (0, 1)]
     atuples = [t for t in tuples if len(t) <= (2 if tier == 'quick' else 3) and max(t) <= 2]
     assoc = [{'kind': 'assoc', 'sizes': list(t), 'scheme': s, 'how': 'list'} for t in atuples for s in ('none', 'interleaved')]
     ref = [{'kind': 'refusal', 'rule': r, 'pos': p, 'sizes': [2, 1, 2]} for r in REFUSALS for p in range(3)]
     return [
-        {'name': 'concatenation', 'axes': {'sizes': f'{len(tuples)} tuples', 'scheme': SCHEMES, 'how': ['list', 'pattern']}, 'cases': concat},
+        {'name': 'concatenation', 'axes': {'sizes': f'{len(tuples)} tuples', 'scheme': SCHEMES, 'how': ['list/names in given order', 'list/names in reverse lexicographic order', 'pattern from 0', 'pattern from 2 with decoys']}, 'cases': concat},
+        {'name': 'unpadded-pattern', 'axes': {'parts': [11, 12, 21], 'scheme': SCHEMES, 'start': [0, 1]}, 'cases': unpadded},
         {'name': 'associated', 'axes': {'sizes': f'{len(atuples)} tuples', 'scheme': ['none', 'interleaved']}, 'cases': assoc},
         {'name': 'refusals', 'axes': {'rule': REFUSALS, 'pos': [0, 1, 2]}, 'cases': ref},
     ]
@@ -56,16 +69,44 @@ def worker_init(tier, seed):
     sm.extra_fieldset()
 
 
-def do_merge(tmp, paths, how, out):
+def input_names(case):
+    k = len(case['sizes'])
+    how = case['how']
+    if how == 'list':
+        if case.get('names') == 'reverse':
+            return [f'in_{k - 1 - s:03d}.nc' for s in range(k)]
+        return [f'in_{s:03d}.nc' for s in range(k)]
+    if how == 'pattern':
+        return [f'in_{s + case.get("start", 0):03d}.nc' for s in range(k)]
+    return [f'p_{s + case.get("start", 0)}.nc' for s in range(k)]
+
+
+def do_merge(tmp, paths, case, out):
     from AEIC.trajectories import TrajectoryStore
 
+    how = case['how']
     if how == 'list':
         TrajectoryStore.merge(output_store=out, input_stores=list(paths))
     else:
-        TrajectoryStore.merge(
-            output_store=out, input_stores_pattern=tmp / 'in_{index:03d}.nc', input_stores_index_range=(0, len(paths) - 1)
-        )
+        st = case.get('start', 0)
+        pat = tmp / ('in_{index:03d}.nc' if how == 'pattern' else 'p_{index}.nc')
+        TrajectoryStore.merge(output_store=out, input_stores_pattern=pat, input_stores_index_range=(st, st + len(paths) - 1))
     gc.collect()
+
+
+def make_decoys(tmp, case):
+    """Store files below the start of a numbered range: a merge of the range must leave them alone."""
+    from AEIC.trajectories import TrajectoryStore
+
+    out = []
+    if case['how'] in ('pattern', 'pattern-unpadded'):
+        for i in range(case.get('start', 0)):
+            p = tmp / (f'in_{i:03d}.nc' if case['how'] == 'pattern' else f'p_{i}.nc')
+            with TrajectoryStore.create(base_file=p) as ts:
+                ts.add(mm.make(700 + i, None if case['scheme'] == 'none' else 7000 + i, False))
+            out.append((p, [700 + i]))
+        gc.collect()
+    return out
 
 
 def run_case(case):
@@ -76,10 +117,11 @@ def run_case(case):
     try:
         if case['kind'] in ('concat', 'assoc'):
             wa = case['kind'] == 'assoc'
-            paths, ap, cp, model = mm.build_inputs(tmp, case['sizes'], case['scheme'], with_assoc=wa)
+            paths, ap, cp, model = mm.build_inputs(tmp, case['sizes'], case['scheme'], with_assoc=wa, names=input_names(case))
+            decoys = make_decoys(tmp, case)
             out = tmp / 'out.aeic-store'
             try:
-                do_merge(tmp, paths, case['how'], out)
+                do_merge(tmp, paths, case, out)
                 assoc = None
                 if wa:
                     TrajectoryStore.merge(output_store=tmp / 'outs.aeic-store', input_stores=ap)
@@ -89,6 +131,9 @@ def run_case(case):
                 return {'outcome': 'merge-raised', 'nontrivial': True,
                         'violations': [V('merge-raised', f'{case}: {type(ex).__name__}: {ex}')]}
             vio = mm.observe_merged(out, model, assoc, where=str(case))
+            for dp, want in decoys:
+                if mm.read_plain(dp) != want:
+                    vio.append(V('merge-consumed-file-outside-range', f'{case}: {dp.name} (below the start of the numbered range) no longer reads {want} at its path'))
             return {'outcome': f'merged:{len(case["sizes"])}', 'nontrivial': len(case['sizes']) >= 2, 'violations': vio}
         return refusal_case(tmp, case)
     finally:
